@@ -567,6 +567,7 @@ class Interp:
             if m is not None and key is not fn:
                 always, h = m
                 if always or has_sym(args) or has_sym(kwargs):
+                    self._guard_kwargs(fn, h, kwargs)
                     return h(*args, **kwargs)
                 m = None
             if m is None:
@@ -576,6 +577,7 @@ class Interp:
         if m is not None:
             always, h = m
             if always or has_sym(args) or has_sym(kwargs):
+                self._guard_kwargs(key, h, kwargs)
                 a2 = ([selfarg] if selfarg is not None else []) + args
                 return h(*a2, **kwargs)
         # 4. repository code
@@ -593,6 +595,19 @@ class Interp:
                 return self.call(types.MethodType(cm, fn), args, kwargs)
         # 5. other native code
         return self.native(fn, args, kwargs)
+
+    _SEMANTIC_KW = ("out", "where", "keepdims", "initial", "casting", "order", "subok")
+    _HANDLES_OUT = ("_ew",)
+
+    def _guard_kwargs(self, fn, h, kwargs):
+        """a numpy keyword that changes what the call does must be understood by the model; silently dropping it would be unsound"""
+        for k_ in self._SEMANTIC_KW:
+            if kwargs.get(k_) is not None and not (k_ == "keepdims" and kwargs[k_] is False):
+                if k_ == "out" and getattr(h, "__qualname__", "").startswith("_ew.<locals>"):
+                    continue  # elementwise unary models store into out
+                if k_ in getattr(h, "__code__", type("x", (), {"co_varnames": ()})).co_varnames[: getattr(getattr(h, "__code__", None), "co_argcount", 0) + getattr(getattr(h, "__code__", None), "co_kwonlyargcount", 0)]:
+                    continue  # the model names this keyword explicitly
+                raise Unsupported("keyword %s= of %s is not modelled" % (k_, getattr(fn, "__name__", fn)))
 
     def native(self, fn, args, kwargs, trusted=False):
         mod = getattr(fn, "__module__", None) or getattr(getattr(fn, "__self__", None), "__module__", "") or ""
